@@ -349,8 +349,13 @@ def run(repo, chk):
 
     # ---------------- E1 ------------------------------------------------------------------------
     from . import c09, c02
-    chk.rule('C01.V1', 'value lowerings shared with C09: unary operators, strict 0/1 bool normalisation, byte access / widening')
+    chk.rule('C01.V1', 'value lowerings shared with C09/C04: unary operators, strict 0/1 bool normalisation, byte access / widening, '
+                       'element index scaling at every word size')
     c09.run(repo, Remap(chk, {'C09.M2': 'C01.E1', 'C09.M3': 'C01.V1', 'C09.M4': 'C01.V1'}))
+    from . import c04, c16
+    c04._scale(repo, Remap(chk, {'C04.A4': 'C01.V1'}), gf)
+    chk.rule('C01.X1', 'statements are generated iff reachable: the exit-mode analysis never drops code that can run (shared with C16.E1/E2/E3)')
+    c16.run(repo, Remap(chk, {'C16.E1': 'C01.X1', 'C16.E2': 'C01.X1', 'C16.E3': 'C01.X1'}))
     c02.run(repo, Remap(chk, {'C02.T6': 'C01.E1'}))
     for fname, want in (('array_lookup', ['src_expr', 'idx_expr']), ('array_assignment', ['src_expr', 'idx_expr', 'rhs_expr'])):
         bad = None
